@@ -554,7 +554,7 @@ def user_text(cid, t, ttype):
 
 # logical step budgets (function entries into the instrumented interpreter/parser modules) per turn; the largest
 # well-behaved turn seen during calibration: v1 ~45k (300-line generated flow), v2 ~2M (bounded flow-generation recursion)
-STEP_BUDGET = {"v1": 4_000_000, "v2": 8_000_000}  # v1: an endless generated flow runs into the 500-event limit after ~0.9M steps
+STEP_BUDGET = {"v1": 25_000_000, "v2": 8_000_000}  # v1: an endless generated flow runs into the 500-event limit (~0.9M steps); a later turn replays that history on every event
 
 
 def play(app, case, cid):
